@@ -209,6 +209,7 @@ func (h *c16Handle) Read(p []byte) (int, error) {
 		h.rerr = true
 		return 0, errC16
 	}
+	vp.Assume(h.n.size <= c16Cap) // only the first c16Cap bytes of a file are stored
 	rem := h.n.size - h.pos
 	if rem <= 0 {
 		h.reof = true
@@ -264,11 +265,14 @@ func (h *c16Handle) Write(p []byte) (int, error) {
 			}
 		}
 	}
-	vp.Assume(h.pos+w <= c16Cap) // bounded model: files of at most c16Cap bytes
+	// the length is tracked exactly; only the first c16Cap bytes are stored (a correct copy of a
+	// source of at most c16Cap bytes never writes beyond them)
 	pos := h.pos
 	for i := 0; i < c16Cap; i++ {
 		if i < w {
-			h.n.buf[(pos+i)&(c16Cap-1)] = p[i]
+			if pos+i < c16Cap {
+				h.n.buf[(pos+i)&(c16Cap-1)] = p[i]
+			}
 		}
 	}
 	h.pos += w
